@@ -24,6 +24,8 @@ RoundOk(ev) ==
   LET want == IF ev.kind = "enc" THEN Enc(B(ev.s), B(ev.k)) ELSE Dec(B(ev.s), B(ev.k))
   IN  B(ev.soft) = want /\ B(ev.hard) = want
 
+\* the canary bytes behind the output buffers are intact: a routine asked for n bytes writes n bytes (n = 0: nothing)
+GuardOk(ev) == ("guard" \in DOMAIN ev) => ev.guard
 FillOk(ev, four) ==
   LET g == IF four THEN Gen4(B(ev.state), ev.n) ELSE Gen1(B(ev.state), ev.n)
   IN  /\ B(ev.soft_out) = g[1] /\ B(ev.hard_out) = g[1]
@@ -55,10 +57,10 @@ SameOk(ev) == ev.diff = 0
 
 EventOk(ev) ==
   CASE ev.e = "round" -> RoundOk(ev)
-    [] ev.e = "fill1" -> FillOk(ev, FALSE)
-    [] ev.e = "fill4" -> FillOk(ev, TRUE)
+    [] ev.e = "fill1" -> FillOk(ev, FALSE) /\ GuardOk(ev)
+    [] ev.e = "fill4" -> FillOk(ev, TRUE) /\ GuardOk(ev)
     [] ev.e = "hash1" -> HashOk(ev)
-    [] ev.e = "hashfill" -> HashFillOk(ev)
+    [] ev.e = "hashfill" -> HashFillOk(ev) /\ GuardOk(ev)
     [] ev.e = "lut" -> LutOk(ev)
     [] ev.e = "chain" -> ChainOk(ev)
     [] ev.e = "same" -> SameOk(ev)
